@@ -288,6 +288,12 @@ class Extract:
             return [], self.seq(paths, self.assign(st, fr))
         if isinstance(st, ast.AugAssign):
             return [], self.seq(paths, self.augassign(st, fr))
+        if isinstance(st, ast.FunctionDef):
+            # a nested helper that never mentions `self` (nor declares global / nonlocal) cannot touch the tracked state by being defined;
+            # calling it with plain numbers (see reads) returns a value only
+            if any((isinstance(n, ast.Name) and n.id == 'self') or isinstance(n, (ast.Global, ast.Nonlocal)) for n in ast.walk(st)):
+                raise Untranslatable(f'nested function {st.name} refers to self')
+            return [], paths
         if isinstance(st, (ast.For, ast.While, ast.With, ast.Try)):
             if self.has_tracked(st):
                 raise Untranslatable(f'{type(st).__name__} statement touching tracked state')
@@ -637,6 +643,7 @@ def generate(repo):
     info = ClassInfo([base, der])
     utl, _ = load(repo, 'prysm/util.py')
     pol, _ = load(repo, 'prysm/polynomials/__init__.py')
+    coo, _ = load(repo, 'prysm/coordinates.py')
     CALLEES.clear()
     for mod in (pol, utl, ig):      # module-level helpers whose bodies are inspected for in-place writes to their arguments
         for n in mod.body:
@@ -748,7 +755,8 @@ def generate(repo):
             raise Untranslatable('data is not cut by `self.data[<name>, <name>]`')
         names = [e.id for e in sub.elts]
 
-        def bounds(call, axis_len):
+        def bounds(call, axis_len, tr_=None):
+            tr_ = tr_ or tr
             if not (isinstance(call, ast.Call) and ast.unparse(call.func) == 'slice' and not call.keywords and 1 <= len(call.args) <= 2):
                 raise Untranslatable(f'not a slice(a, b): {ast.unparse(call)[:40]}')
             args = call.args if len(call.args) == 2 else [ast.Constant(value=None), call.args[0]]
@@ -756,12 +764,41 @@ def generate(repo):
             def one(a, default):
                 if isinstance(a, ast.Constant) and a.value is None:
                     return default
-                return f'(normIdx {axis_len} {tr.expr(a)})'
+                return f'(normIdx {axis_len} {tr_.expr(a)})'
             return one(args[0], '(0 : Int)'), one(args[1], axis_len)
+
+        nested = {n.name: n for n in fn.body if isinstance(n, ast.FunctionDef)}
+
+        def returns(stmts, tr_, axis_len):
+            """(lo, hi) of a helper body made of `if c: return slice(..)` / `elif` / `else` / a final `return slice(..)`"""
+            for k, st in enumerate(stmts):
+                if isinstance(st, ast.Expr) and isinstance(st.value, ast.Constant):
+                    continue
+                if isinstance(st, ast.Return) and st.value is not None:
+                    return bounds(st.value, axis_len, tr_)
+                if isinstance(st, ast.If):
+                    c = tr_.cond(st.test)
+                    lo1, hi1 = returns(st.body, tr_, axis_len)
+                    lo2, hi2 = returns(st.orelse if st.orelse else stmts[k + 1:], tr_, axis_len)
+                    return f'(if {c} then {lo1} else {lo2})', f'(if {c} then {hi1} else {hi2})'
+                raise Untranslatable(f'statement in nested helper: {ast.unparse(st)[:40]}')
+            raise Untranslatable('nested helper falls off its end')
 
         def chain(node_list, name, axis_len):
             """Lean (lo, hi) terms for the if/elif chain assigning `name`"""
             for st in node_list:
+                if isinstance(st, ast.Assign) and len(st.targets) == 1 and isinstance(st.targets[0], ast.Name) \
+                        and st.targets[0].id == name and isinstance(st.value, ast.Call) and isinstance(st.value.func, ast.Name) \
+                        and st.value.func.id in nested and not st.value.keywords:
+                    h = nested[st.value.func.id]
+                    params = [a.arg for a in h.args.args]
+                    if len(params) != len(st.value.args) or h.args.vararg or h.args.kwarg or h.args.defaults:
+                        raise Untranslatable('nested helper call does not bind its parameters positionally')
+                    for n_ in ast.walk(h):
+                        if isinstance(n_, (ast.Assign, ast.AugAssign)):
+                            raise Untranslatable('nested helper assigns locals')
+                    env2 = {p_: '(' + tr.expr(a_) + ')' for p_, a_ in zip(params, st.value.args)}
+                    return returns(h.body, Tr(env2), axis_len)
                 if isinstance(st, ast.Assign) and len(st.targets) == 1 and isinstance(st.targets[0], ast.Name) \
                         and st.targets[0].id == name:
                     return bounds(st.value, axis_len)
@@ -783,6 +820,267 @@ def generate(repo):
     g.item('crop.slices', 'prysm/interferogram.py:Interferogram.crop', lambda: info.methods['crop'], crop_slices,
            '\n'.join(f'def {nm} {sig} := {M}.{nm} left right top bottom rows cols'
                      for nm in ('cropRowLo', 'cropRowHi', 'cropColLo', 'cropColHi')))
+
+    # ---- crop: where the four margins come from (which axis `any` reduces, forward / reversed argmax, which validity test)
+    #      and the early-return test, by symbolic evaluation of the straight-line head of the method
+    def crop_margins():
+        from pyexpr2lean import Tr
+        fn = info.methods['crop']
+        env = {}
+        facts = {'finite': None}
+
+        def axis_of(call, first_positional):
+            ax = None
+            for k in call.keywords:
+                if k.arg == 'axis':
+                    ax = k.value
+            if ax is None and len(call.args) > first_positional:
+                ax = call.args[first_positional]
+            if isinstance(ax, ast.UnaryOp) and isinstance(ax.op, ast.USub) and isinstance(ax.operand, ast.Constant):
+                return {1: 1, 2: 0}.get(ax.operand.value)
+            if isinstance(ax, ast.Constant) and ax.value in (0, 1):
+                return ax.value
+            return None
+
+        def ev(e):
+            if isinstance(e, ast.Name):
+                return env.get(e.id, ('opaque',))
+            if isinstance(e, ast.Call):
+                f = ast.unparse(e.func)
+                if f in ('np.isfinite', 'np.isnan', 'np.isinf') and len(e.args) == 1 and _is_self_attr(e.args[0], ('data',)):
+                    return ('mat', f.split('.')[-1], False)
+                if f in ('np.logical_not', 'np.invert') and len(e.args) == 1:
+                    v = ev(e.args[0])
+                    if v[0] == 'mat':
+                        return ('mat', v[1], not v[2])
+                if f in ('np.any',) and e.args:
+                    v, ax = ev(e.args[0]), axis_of(e, 1)
+                    if v[0] == 'mat' and ax is not None:
+                        return ('vec', v, 'col' if ax == 0 else 'row', False)
+                if isinstance(e.func, ast.Attribute) and e.func.attr == 'any':
+                    v, ax = ev(e.func.value), axis_of(e, 0)
+                    if v[0] == 'mat' and ax is not None:
+                        return ('vec', v, 'col' if ax == 0 else 'row', False)
+                if f in ('np.flip', 'np.flipud') and len(e.args) == 1 and not e.keywords:
+                    v = ev(e.args[0])
+                    if v[0] == 'vec':
+                        return ('vec', v[1], v[2], not v[3])
+                if f in ('np.argmax',) and len(e.args) == 1 and not e.keywords:
+                    v = ev(e.args[0])
+                    if v[0] == 'vec':
+                        return ('margin', v)
+                if isinstance(e.func, ast.Attribute) and e.func.attr == 'argmax' and not e.args and not e.keywords:
+                    v = ev(e.func.value)
+                    if v[0] == 'vec':
+                        return ('margin', v)
+                if f == 'int' and len(e.args) == 1:
+                    return ev(e.args[0])
+                return ('opaque',)
+            if isinstance(e, ast.UnaryOp) and isinstance(e.op, ast.Invert):
+                v = ev(e.operand)
+                if v[0] == 'mat':
+                    return ('mat', v[1], not v[2])
+            if isinstance(e, ast.Subscript) and isinstance(e.slice, ast.Slice) and e.slice.lower is None and e.slice.upper is None \
+                    and isinstance(e.slice.step, ast.UnaryOp) and isinstance(e.slice.step.op, ast.USub) \
+                    and isinstance(e.slice.step.operand, ast.Constant) and e.slice.step.operand.value == 1:
+                v = ev(e.value)
+                if v[0] == 'vec':
+                    return ('vec', v[1], v[2], not v[3])
+            return ('opaque',)
+
+        early = None
+        for st in fn.body:
+            if isinstance(st, ast.Expr) or isinstance(st, ast.FunctionDef):
+                continue
+            if isinstance(st, ast.Assign) and len(st.targets) == 1:
+                t = st.targets[0]
+                if isinstance(t, ast.Name):
+                    env[t.id] = ev(st.value)
+                    continue
+                if isinstance(t, ast.Tuple) and isinstance(st.value, ast.Tuple) and len(t.elts) == len(st.value.elts) \
+                        and all(isinstance(x, ast.Name) for x in t.elts):
+                    vals = [ev(x) for x in st.value.elts]
+                    for x, v in zip(t.elts, vals):
+                        env[x.id] = v
+                    continue
+                break
+            if isinstance(st, ast.If) and early is None and len(st.body) == 1 and isinstance(st.body[0], ast.Return) and not st.orelse:
+                early = st.test
+                continue
+            break
+        if early is None:
+            raise Untranslatable('no `if <nothing to trim>: return` before the slices are built')
+        out = []
+        for py, ln in (('left', 'cropLeft'), ('right', 'cropRight'), ('top', 'cropTop'), ('bottom', 'cropBottom')):
+            v = env.get(py)
+            if not v or v[0] != 'margin':
+                raise Untranslatable(f'`{py}` is not an argmax of any(validity, axis)')
+            _, (_, mat, kind, rev) = v
+            valid_means_true = (mat[1] == 'isfinite' and not mat[2]) or (mat[1] in ('isnan',) and mat[2])
+            if not valid_means_true and not (mat[1] == 'isinf' and mat[2]):
+                raise Untranslatable('margins are measured on the INVALID samples')
+            fin = (mat[1] == 'isfinite')
+            facts['finite'] = fin if facts['finite'] is None else (facts['finite'] and fin)
+            vec = f'({"rowAny" if kind == "row" else "colAny"} v rows cols)'
+            out.append(f'def {ln} (v : Nat → Nat → Bool) (rows cols : Nat) : Nat := argmaxB {vec}{".reverse" if rev else ""}')
+        c = Tr({k: k for k in ('left', 'right', 'top', 'bottom')}).cond(early)
+        out.append(f'def cropReturnsEarly (left right top bottom : Int) : Bool := decide {c}')
+        out.append(f'def cropValidityIsFinite : Bool := {"true" if facts["finite"] else "false"}')
+        return '\n'.join(out)
+    g.item('crop.margins', 'prysm/interferogram.py:Interferogram.crop', lambda: info.methods['crop'], crop_margins,
+           'def cropLeft (v : Nat → Nat → Bool) (rows cols : Nat) : Nat := argmaxB (rowAny v rows cols)\n'
+           'def cropRight (v : Nat → Nat → Bool) (rows cols : Nat) : Nat := argmaxB (rowAny v rows cols).reverse\n'
+           'def cropTop (v : Nat → Nat → Bool) (rows cols : Nat) : Nat := argmaxB (colAny v rows cols)\n'
+           'def cropBottom (v : Nat → Nat → Bool) (rows cols : Nat) : Nat := argmaxB (colAny v rows cols).reverse\n'
+           'def cropReturnsEarly (left right top bottom : Int) : Bool := decide (left = 0 ∧ right = 0 ∧ top = 0 ∧ bottom = 0)\n'
+           'def cropValidityIsFinite : Bool := true')
+
+    # ---- the polar transform behind RichData.r / .t: cart_to_polar as expressions in hypot / arctan2
+    def polar_transform():
+        fn = get_def(coo, 'cart_to_polar')
+        params = [a.arg for a in fn.args.args]
+        if params[:2] != ['x', 'y']:
+            raise Untranslatable('cart_to_polar parameters are not (x, y, ..)')
+        env = {'x': 'x', 'y': 'y'}
+
+        def ev(e):
+            if isinstance(e, ast.Name) and e.id in env:
+                return env[e.id]
+            if isinstance(e, ast.Subscript):      # x[np.newaxis, :] / y[:, None]: the same values, broadcast
+                txt = ast.unparse(e).replace(' ', '')[len(ast.unparse(e.value).replace(' ', '')):]
+                if txt in ('[np.newaxis,:]', '[:,np.newaxis]', '[None,:]', '[:,None]'):
+                    return ev(e.value)
+            if isinstance(e, ast.Call):
+                f = ast.unparse(e.func)
+                if f == 'np.hypot' and len(e.args) == 2 and not e.keywords:
+                    return f'(hyp {ev(e.args[0])} {ev(e.args[1])})'
+                if f == 'np.arctan2' and len(e.args) == 2 and not e.keywords:
+                    return f'(at2 {ev(e.args[0])} {ev(e.args[1])})'
+                if f == 'np.sqrt' and len(e.args) == 1 and isinstance(e.args[0], ast.BinOp) and isinstance(e.args[0].op, ast.Add):
+                    def sq(t):
+                        if isinstance(t, ast.BinOp) and isinstance(t.op, ast.Pow) and isinstance(t.right, ast.Constant) and t.right.value == 2:
+                            return ev(t.left)
+                        if isinstance(t, ast.BinOp) and isinstance(t.op, ast.Mult) and ast.unparse(t.left) == ast.unparse(t.right):
+                            return ev(t.left)
+                        raise Untranslatable('sqrt of something that is not a sum of two squares')
+                    return f'(hyp {sq(e.args[0].left)} {sq(e.args[0].right)})'
+            raise Untranslatable(f'cart_to_polar expression {ast.unparse(e)[:40]}')
+
+        def run(stmts):
+            for st in stmts:
+                if isinstance(st, ast.Expr):
+                    continue
+                if isinstance(st, ast.If):
+                    # the vector -> grid branch must only re-index x and y (value-transparent)
+                    for b in st.body:
+                        if not (isinstance(b, ast.Assign) and len(b.targets) == 1 and isinstance(b.targets[0], ast.Name)
+                                and b.targets[0].id in ('x', 'y') and ev(b.value) == b.targets[0].id):
+                            raise Untranslatable('vec_to_grid branch changes the values of x / y')
+                    if st.orelse:
+                        raise Untranslatable('else branch in cart_to_polar')
+                    continue
+                if isinstance(st, ast.Assign) and len(st.targets) == 1 and isinstance(st.targets[0], ast.Name):
+                    env[st.targets[0].id] = ev(st.value)
+                    continue
+                if isinstance(st, ast.Return) and isinstance(st.value, ast.Tuple) and len(st.value.elts) == 2:
+                    return ev(st.value.elts[0]), ev(st.value.elts[1])
+                raise Untranslatable(f'statement in cart_to_polar: {ast.unparse(st)[:40]}')
+            raise Untranslatable('cart_to_polar does not return a pair')
+        rho, phi = run(fn.body)
+        sig = '{K : Type} (hyp at2 : K → K → K) (x y : K) : K'
+        return f'def polarRho {sig} := {rho}\ndef polarPhi {sig} := {phi}'
+    g.item('polar.transform', 'prysm/coordinates.py:cart_to_polar', lambda: get_def(coo, 'cart_to_polar'), polar_transform,
+           'def polarRho {K : Type} (hyp at2 : K → K → K) (x y : K) : K := hyp x y\n'
+           'def polarPhi {K : Type} (hyp at2 : K → K → K) (x y : K) : K := at2 y x')
+
+    # ---- the reported statistics: which util function each Interferogram property hands `self.data` to
+    def stats_delegation():
+        imported = {}
+        for n in ig.body:
+            if isinstance(n, ast.ImportFrom) and n.module == 'util' and n.level == 1:
+                for a in n.names:
+                    imported[a.asname or a.name] = a.name
+        code = {'mean': 0, 'pv': 1, 'rms': 2, 'Sa': 3, 'std': 4}
+        rebound = {t.id for n in ig.body if isinstance(n, ast.Assign) for t in n.targets if isinstance(t, ast.Name)} | \
+                  {n.name for n in ig.body if isinstance(n, (ast.FunctionDef, ast.ClassDef)) and n.name != 'psd'}
+        out = []
+        for prop in ('pv', 'rms', 'Sa', 'std'):
+            fn = None
+            for n in der.body:
+                if isinstance(n, ast.FunctionDef) and n.name == prop and any(ast.unparse(d) == 'property' for d in n.decorator_list):
+                    fn = n
+            if fn is None:
+                raise Untranslatable(f'Interferogram.{prop} is not a property')
+            body = [st for st in fn.body if not (isinstance(st, ast.Expr) and isinstance(st.value, ast.Constant))]
+            if not (len(body) == 1 and isinstance(body[0], ast.Return) and isinstance(body[0].value, ast.Call)):
+                raise Untranslatable(f'Interferogram.{prop} is not `return f(self.data)`')
+            call = body[0].value
+            f = call.func
+            if isinstance(f, ast.Name) and f.id in imported and f.id not in rebound:
+                callee = imported[f.id]
+            elif isinstance(f, ast.Attribute) and ast.unparse(f.value) in ('util', 'prysm.util'):
+                callee = f.attr
+            else:
+                raise Untranslatable(f'Interferogram.{prop} calls {ast.unparse(f)[:30]}')
+            if callee not in code:
+                raise Untranslatable(f'Interferogram.{prop} calls util.{callee}')
+            if not (len(call.args) == 1 and not call.keywords and _is_self_attr(call.args[0], ('data',))):
+                raise Untranslatable(f'Interferogram.{prop}: argument is not self.data')
+            out.append(code[callee])
+        return ('/-- util function (0 mean, 1 pv, 2 rms, 3 Sa, 4 std) applied to `self.data` by the properties pv, rms, Sa, std (in this order) -/\n'
+                f'def ifgStatCallee : List Nat := {out}')
+    g.item('stats.delegation', 'prysm/interferogram.py:Interferogram.{pv,rms,Sa,std}', lambda: ast.Module(body=[n for n in der.body if isinstance(n, ast.FunctionDef) and n.name in ('pv', 'rms', 'Sa', 'std')], type_ignores=[]),
+           stats_delegation, 'def ifgStatCallee : List Nat := [1, 2, 3, 4]')
+
+    # ---- pad: the shape handed to pad2d (samples -> shape arithmetic, which count goes to which axis)
+    def pad_shape():
+        from pyexpr2lean import Tr
+        fn = info.methods['pad']
+        int_both = None
+        gen = None
+        call_ok = None
+        for st in ast.walk(fn):
+            if isinstance(st, ast.If) and ast.unparse(st.test).replace(' ', '') in ('isinstance(samples,int)', 'isinstance(samples,(int,np.integer))',
+                                                                                 'isinstance(samples,numbers.Integral)', 'np.isscalar(samples)'):
+                b = st.body
+                int_both = (len(b) == 1 and isinstance(b[0], ast.Assign) and ast.unparse(b[0].targets[0]) == 'samples'
+                            and ast.unparse(b[0].value).replace(' ', '') in ('(samples,samples)', '[samples,samples]'))
+            if isinstance(st, ast.Assign) and ast.unparse(st.targets[0]) == 'shape' and isinstance(st.value, ast.Call) \
+                    and ast.unparse(st.value.func) in ('tuple', 'list') and len(st.value.args) == 1 \
+                    and isinstance(st.value.args[0], (ast.GeneratorExp, ast.ListComp)):
+                gen = st.value.args[0]
+            if isinstance(st, ast.Assign) and _is_self_attr(st.targets[0], ('data',)) and isinstance(st.value, ast.Call) \
+                    and ast.unparse(st.value.func) == 'pad2d':
+                c = st.value
+                kws = {k.arg: ast.unparse(k.value) for k in c.keywords}
+                arr = ast.unparse(c.args[0]) if c.args else kws.get('array')
+                call_ok = (arr == 'self.data' and kws.get('out_shape') == 'shape' and kws.get('value') == 'value'
+                           and 'Q' not in kws and len(c.args) <= 1)
+        if gen is None or len(gen.generators) != 1 or gen.generators[0].ifs:
+            raise Untranslatable('no `shape = tuple(<e> for .. in zip(..))`')
+        comp = gen.generators[0]
+        if not (isinstance(comp.iter, ast.Call) and ast.unparse(comp.iter.func) == 'zip' and len(comp.iter.args) == 2
+                and isinstance(comp.target, ast.Tuple) and len(comp.target.elts) == 2
+                and all(isinstance(e, ast.Name) for e in comp.target.elts)):
+            raise Untranslatable('shape comprehension is not over zip(a, b)')
+        envs = [{}, {}]
+        for name, it in zip(comp.target.elts, comp.iter.args):
+            src = ast.unparse(it)
+            if src in ('self.data.shape', 'self.shape'):
+                envs[0][name.id], envs[1][name.id] = 'rows', 'cols'
+            elif src == 'samples':
+                envs[0][name.id], envs[1][name.id] = 's0', 's1'
+            else:
+                raise Untranslatable(f'zip over {src[:30]}')
+        if call_ok is None or int_both is None:
+            raise Untranslatable('no pad2d call / no integer-samples branch')
+        sig = '(rows cols s0 s1 : Int) : Int'
+        b = lambda x: 'true' if x else 'false'   # noqa: E731
+        return (f'def padShape0 {sig} := {Tr(envs[0]).expr(gen.elt)}\ndef padShape1 {sig} := {Tr(envs[1]).expr(gen.elt)}\n'
+                f'def padIntSamplesBothAxes : Bool := {b(int_both)}\ndef padHandsDataValueShapeToPad2d : Bool := {b(call_ok)}')
+    g.item('pad.shape', 'prysm/interferogram.py:Interferogram.pad', lambda: info.methods['pad'], pad_shape,
+           'def padShape0 (rows cols s0 s1 : Int) : Int := rows + s0\ndef padShape1 (rows cols s0 s1 : Int) : Int := cols + s1\n'
+           'def padIntSamplesBothAxes : Bool := true\ndef padHandsDataValueShapeToPad2d : Bool := true')
 
     # ---- util.mean / pv / rms / Sa / std: the statistics as list expressions over the valid samples
     # symbolic evaluation of the (straight-line) function bodies; same-module helper functions are inlined
